@@ -29,6 +29,30 @@ Theorem C05_recorded_exactly_one_refuted :
 Proof. exact recorded_exactly_one_refuted. Qed.
 Print Assumptions C05_recorded_exactly_one_refuted.
 
+(* SIGKILL at any moment: every durable state an operation writes (`crash_states`: the database before, and after
+   each of its durable statements / transactions, in program order) still holds AT LEAST ONE record for every
+   (tower, locator) owed before the operation - the transient two-record state of a move is the intended mechanism. *)
+Theorem C05_recorded_at_least_one_at_crash ops o :
+  ops_fresh f_init ops = true -> let s := frun f_init ops in fresh_ok s o = true ->
+  forall d, In d (crash_states o s) ->
+  forall t l, In (t, l) (f_due s) -> tower_row d t = true -> exists_misbehaving_proof d t = false ->
+  (1 <= record_count d t l)%nat.
+Proof. exact (recorded_at_least_one_at_crash ops o). Qed.
+Print Assumptions C05_recorded_at_least_one_at_crash.
+
+(* ... and after the restart the retrier finishes the move: exactly one again.  PARTIAL: shown on the crash point that
+   matters (between add_appointment_receipt and remove_pending_appointment of a move) by evaluation; the general
+   statement over all crash points needs the invariant re-established from a two-record state and is not proved. *)
+Example C05_exactly_one_again_after_crash :
+  let ops := [FRegister 0 (w_good 1); FRevocation 5 [] [(0, AConnErr)]; FManagerTick []; FManagerTick []] in
+  let s := frun f_init ops in
+  let o := FRetrierRun 0 [w_att [AAccept 110] true] in
+  let d := nth 1 (crash_states o s) [] in               (* killed right after the receipt was stored *)
+  record_count d 0 5 = 2%nat /\
+  let s' := frun (crash_restart s o 1) [FManagerTick []; FManagerTick []; FRetrierRun 0 [w_att [AAccept 110] true]] in
+  record_count (c_db (f_c s')) 0 5 = 1%nat /\ has_receipt_row (c_db (f_c s')) 0 5 = true /\ f_tasks s' = [].
+Proof. vm_compute. repeat split. Qed.
+
 (* A retrier run never loses a record: what had a receipt, a pending row or an invalid row before still has one of
    the three after (for EVERY (tower, locator), owed or not, every reply sequence given to the retrier). *)
 Theorem C05_no_record_lost_by_retry ops t atts :
